@@ -165,7 +165,7 @@ pub fn run(args: &Args) -> i32 {
     let thorough = args.tier == Tier::Thorough;
 
     // 1. all element sequences up to the depth bound, every piece length
-    let depth = if thorough { 5 } else { 4 };
+    let depth = if thorough { 6 } else { 4 };
     let k = 8u64;
     let mut total = 0u64;
     let mut offs = vec![];
